@@ -362,10 +362,18 @@ def insitu_case(ctx, case):
     orig = SR.toposort_all
     seen = []
 
-    def wrapper(graph):
-        snap = copy.deepcopy(graph)
-        res = orig(graph)
-        seen.append((snap, [list(o) for o in res], copy.deepcopy(graph)))
+    def wrapper(*a, **k):
+        graph = a[0] if a else None
+        try:
+            snap = copy.deepcopy(graph)
+        except Exception:  # noqa: BLE001
+            snap = None
+        res = orig(*a, **k)
+        try:
+            if snap is not None and len(a) == 1 and not k:
+                seen.append((snap, [list(o) for o in res], copy.deepcopy(graph)))
+        except Exception:  # noqa: BLE001 - a different call convention is simply not observed
+            pass
         return res
 
     SR.toposort_all = wrapper
